@@ -28,7 +28,7 @@ BOUNDSCHECK_TIERS = ("thorough",)
 
 
 def REQUIRED(tier):
-    return [f"t:{t}" for t in TRANSFORMS] + ["outputs_parsed", "outputs_compared", "spy:cwrite_calls", "regime:multi_block", "regime:subrange", "regime:multi_file_input", "regime:reader_with_history", "regime:single_read_over_64MiB", "regime:default_range_arguments", "regime:output_name_held_a_longer_file", "mask:nothing_flagged", "mask:non_finite_samples_in_masked_channels", "regime:trailing_zero_blocks", "regime:subband_over_257_channels_per_band", "zerodm:channel_with_zero_mean_nonzero_samples"]
+    return [f"t:{t}" for t in TRANSFORMS] + ["outputs_parsed", "outputs_compared", "spy:cwrite_calls", "regime:multi_block", "regime:subrange", "regime:multi_file_input", "regime:reader_with_history", "regime:single_read_over_64MiB", "regime:default_range_arguments", "regime:output_name_held_a_longer_file", "mask:nothing_flagged", "mask:non_finite_samples_in_masked_channels", "regime:trailing_zero_blocks", "regime:subband_over_257_channels_per_band:compared", "zerodm:channel_with_zero_mean_nonzero_samples"]
 
 
 def cases(tier, seed):
@@ -135,10 +135,9 @@ def _input(ctx, case):
         ctx.count("regime:trailing_zero_blocks")
     if case.get("special") == "bright_wide":
         X = rng.integers(150, 256, size=X.shape).astype(X.dtype)
-        ctx.count("regime:subband_over_257_channels_per_band")
     d = os.path.join(ctx.tmp, f"i{ctx.evaluations}")
     os.makedirs(d, exist_ok=True)
-    paths = sigfile.write_split(d, X, case["nbits"], case["split"], fch1=1500.0, foff=-10.0, tsamp=1e-3)
+    paths = sigfile.write_split(d, X, case["nbits"], case["split"], fch1=1500.0, foff=-10.0 if case["nchans"] <= 64 else -0.25, tsamp=1e-3)
     return X, paths, d
 
 
@@ -312,6 +311,8 @@ def run_case(case, ctx):
             if delays.min() < 0 or md >= nsamps:
                 ctx.skip("subband: maxdelay >= nsamps")
                 return
+            if case.get("special") == "bright_wide":
+                ctx.count("regime:subband_over_257_channels_per_band:compared")
             fil.subband(dm, nsub, out, **rkw)
             n_out = nsamps - md
             want = np.zeros((n_out, nsub))
